@@ -859,8 +859,74 @@ func modes(s *hx.Seq) {
 	s.Sample("modes built from every segment list of length <=2 with start time nil / t0 / t0+1s: MagnitudeAt, Cut at every half second, Shift by -3..3 s, pairwise Sum; Sum of 3 and 4 modes under every assignment of 4 start times")
 }
 
+// fractions: lengths that are not whole seconds. The step function's breakpoints are sums of lengths whatever
+// their fractional parts add up to (several seconds' worth, in a list of a few segments).
+func fractions(s *hx.Seq) {
+	lens := []time.Duration{time.Nanosecond, 800 * time.Millisecond, 1500 * time.Millisecond, time.Second - time.Nanosecond, 2 * time.Second}
+	n := 4
+	if s.Thorough {
+		n = 5
+	}
+	var rec func(cur []time.Duration)
+	rec = func(cur []time.Duration) {
+		if len(cur) > 0 && s.Own() {
+			for _, lastInf := range []bool{false, true} {
+				var l []*Seg
+				var tot time.Duration
+				for i, d := range cur {
+					l = append(l, &Seg{Magnitude: float32(i + 1), Length: durationpb.New(d)})
+					tot += d
+				}
+				if lastInf {
+					l = append(l, &Seg{Magnitude: 9})
+				}
+				name := str(l)
+				s.State(name)
+				orig := cloneList(l)
+				d, isInf := segmentpb.Duration(l...)
+				s.Eval(1)
+				if d != tot || isInf != lastInf {
+					s.Fail("duration "+name, fmt.Sprintf("Duration=(%v,%v), the lengths add up to (%v,%v)", d, isInf, tot, lastInf), nil)
+				}
+				// the step function read just before and at the end of the finite part
+				for _, t := range []time.Duration{tot - time.Nanosecond, tot} {
+					want, wantOK := f(orig, t)
+					got, ok := segmentpb.MagnitudeAt(t, l...)
+					s.Eval(1)
+					if ok != wantOK || (ok && got != want) {
+						s.Fail(fmt.Sprintf("magnitude-at %s t=%v", name, t), fmt.Sprintf("MagnitudeAt=(%v,%v), the step function reads (%v,%v)", got, ok, want, wantOK), nil)
+					}
+					el, idx := segmentpb.ActiveAt(t, l...)
+					s.Eval(1)
+					wantIdx, wantEl := len(l), tot
+					if t < tot {
+						wantIdx, wantEl = len(cur)-1, tot-cur[len(cur)-1]
+					} else if lastInf {
+						wantIdx = len(l) - 1
+					}
+					if idx != wantIdx || el != wantEl {
+						s.Fail(fmt.Sprintf("active-at %s t=%v", name, t), fmt.Sprintf("ActiveAt=(%v,%d), want (%v,%d)", el, idx, wantEl, wantIdx), nil)
+					}
+				}
+				if !sameList(l, orig) {
+					s.Fail("mutated "+name, "Duration/MagnitudeAt/ActiveAt changed their arguments", nil)
+				}
+			}
+		}
+		if len(cur) == n || s.Stop() {
+			return
+		}
+		for _, d := range lens {
+			rec(append(cur[:len(cur):len(cur)], d))
+		}
+	}
+	rec(nil)
+	s.Sample(map[string]any{"list": "[1x800ms 2x800ms 3x800ms]", "meaning": "every list of <=4 (quick) / <=5 segments with lengths from {1ns, 0.8s, 1.5s, 1s-1ns, 2s}, with and without a final infinite segment: Duration equals the sum of the lengths; MagnitudeAt and ActiveAt just before and at the end of the finite part agree with the step function"})
+}
+
 func main() {
 	h := hx.New("C18")
+	h.Seq("fractions", fractions)
 	h.Seq("periods", periods)
 	h.Seq("compare", compare)
 	h.Seq("segments", segments)
